@@ -17,13 +17,16 @@ import numpy as np
 
 ID = "C19"
 LEVEL = "exploration"
-RULE = ("cases = (kind, mesh, lattice, NB, NW, data pattern[, k-subset]); text cases run writer->reader for EIG, AMN, MMN "
-        "(npar 1 and 2) and compare with the library's equals(tolerance=1e-11) and an element-wise bound of the printed "
-        "precision; the 'impulse' pattern loops over every single-element impulse of the arrays inside one case; ref cases "
-        "feed the three readers a file written by the harness; npz cases save/load every file class and compare bitwise "
-        "(equals(tolerance=0) and array_equal on every stored attribute); container cases do WannierData.to_npz/from_npz "
-        "and WannierData.write(files=eig,amn,mmn). non-trivial = the object holds more than one number (so an index "
-        "permutation is observable), counted per distinct (class, NK, NNB, NB, NW, pattern, subset)")
+RULE = ("cases = (kind, class, mesh, lattice, NB, NW, data pattern[, k-subset]), one file class per text/ref case; text cases "
+        "run writer->reader for EIG, AMN, MMN (npar 1 and 2) and compare with the library's equals(tolerance=1e-11) and an "
+        "element-wise bound of the printed precision (0.5e-12); the 'impulse' pattern loops over every single-element impulse of "
+        "the arrays inside one case (MMN: first and last k-point); ref cases feed the three readers a file written by the harness "
+        "(MMN: neighbours listed in bkvec order, reversed, rotated); text_reordered cases write back an MMN whose bk_reorder is not "
+        "the identity; npz cases save/load 13 objects of 10 file classes holding all / the first / the odd k-points and compare "
+        "bitwise (equals(tolerance=0) both ways and array_equal on every stored attribute); container cases do "
+        "WannierData.to_npz/from_npz (all files, and files=[eig,mmn]) and WannierData.write(files=[eig,amn,mmn]) + the readers. "
+        "non-trivial = the object holds more than one number (so an index permutation is observable), counted per distinct "
+        "(kind, class, NK, NNB, NB, NW, pattern, subset / file order)")
 ASSUMPTIONS = [
     "k-meshes 1x1x1, 2x1x1, 2x2x1 (quick) + 2x2x2, 3x1x1, 1x1x2 (thorough); lattices orth, hex (quick) + fcc, tric",
     "NB in {1,3} (+2,4 thorough), NW in {1,2} (+3 thorough); b-vector tables come from the real BKVectors.from_kpoints",
